@@ -25,6 +25,9 @@ import re
 NONDET = re.compile(r'random|unique[-_]id', re.I)
 LOADS = ('@import', '@use', '@forward', 'load-css', 'load_css')
 VALUES = [v for v in gen.HOSTILE_VALUES if '$undefined' not in v]
+# values whose text is produced DURING evaluation (interpolation, string concatenation): the format of the scope matters there
+FORMAT_SENSITIVE = ['"w-#{(1/3)}"', 'a#{0.5}b', '"#{(a, b)}"', '"#{0.75}"', '#{(1/3)}px', '"x" + 0.5', 'a + (2/3)', '"#{(1, 2, 3)}"',
+                    'x#{(0.125)}', '"#{1/3} #{0.5}"', 'unquote("#{.5}")', '"#{(a b, c d)}"', 'w#{(2/3)}-#{(1/7)}', '"#{-0.5}"']
 
 
 def first_line(r):
@@ -110,8 +113,10 @@ def worker(ctx):
             k = r.random()
             fmt = {'style': r.choice(['expanded', 'compressed']), 'precision': r.randint(0, 20)}
             if k < 0.35:
-                v = r.choice(VALUES) if r.random() < 0.5 else gen.hostile_value(r)
-                if '$undefined' in v or ';' in v or '{' in v or '}' in v or '&' in v or NONDET.search(v):
+                kv = r.random()
+                v = r.choice(FORMAT_SENSITIVE) if kv < 0.25 else r.choice(VALUES) if kv < 0.6 else gen.hostile_value(r)
+                bare = re.sub(r'#\{[^{}]*\}', '', v)       # interpolation is fine; a stray brace would end the declaration
+                if '$undefined' in v or ';' in v or '{' in bare or '}' in bare or '&' in v or NONDET.search(v):
                     continue          # `&` is the parent selector (not a css value); random()/unique-id() differ per call
                 case = dict(fmt, rel='value', value=v)
             else:
